@@ -130,6 +130,21 @@ func (c *flowCtx) path(v ssa.Value) string {
 		if rs, ok := c.w.subCall(x); ok && len(rs) == 1 {
 			return c.path(rs[0])
 		}
+		if rss := c.w.subCallMulti(x); len(rss) > 1 && len(rss[0]) == 1 && !c.seen[x] {
+			// a spliced helper with several returns reads as the merge of what it returns
+			c.seen[x] = true
+			var es []string
+			for _, rs := range rss {
+				es = append(es, c.path(rs[0]))
+			}
+			delete(c.seen, x)
+			sort.Strings(es)
+			es = dedup(es)
+			if len(es) == 1 {
+				return es[0]
+			}
+			return "phi(" + strings.Join(es, "|") + ")"
+		}
 		return c.call(&x.Call)
 	case *ssa.Extract:
 		if call, ok := x.Tuple.(*ssa.Call); ok {
